@@ -39,9 +39,62 @@ let item_of_sx (x : Sx.t) : item =
   | L (A "flds" :: ks) -> IFields (List.map (function A k -> name_of_string k | _ -> bad "flds") ks)
   | _ -> bad ("unsupported-item " ^ Sx.to_string x)
 
+(* ---- array-like slice items of Ops_GetitemAdv.v (no layout-level model: model = nomodel) ----
+   (arr (d1 .. dk) (i ...))   k <> 1: n-d integer array, row-major
+   (barr (d1 .. dk) (0|1 ...)) rectilinear boolean array
+   (lay LAYOUT)               an awkward array used as an index (converted by Content::asslice on the implementation side,
+                              read here as its nested-list value: 1-d with missing values, or jagged) *)
+let is_adv_item (x : Sx.t) : bool =
+  match x with
+  | L [A "arr"; L sh; _] -> List.length sh <> 1
+  | L (A ("barr" | "lay" | "miss" | "jag") :: _) -> true
+  | _ -> false
+type advres = Adv of advitem | AdvErr | AdvUnspecified | AdvInvalid | AdvUnion
+let adv_of_sx (x : Sx.t) : advres =
+  match x with
+  | L [A "arr"; sh; ix] -> Adv (ANd (zs_of_sx sh, zs_of_sx ix))
+  | L [A "barr"; sh; bits] -> Adv (ABool (zs_of_sx sh, List.map (fun b -> b <> Z0) (zs_of_sx bits)))
+  | L [A "lay"; l] ->
+    let c = content_of_sx l in
+    if not (valid_b c) then AdvInvalid
+    else if has_union (type_of c) then AdvUnion
+    else (match to_list c with
+        | Ok vs -> (match jag_of_value (type_of c) vs with
+            | Ok (d, j) -> Adv (AIdx (d, (match type_of c with TOpt _ -> true | _ -> false), j))
+            | Err EFuel -> AdvUnspecified
+            | Err _ -> AdvErr)
+        | Err _ -> AdvInvalid)
+  | _ -> AdvUnspecified       (* raw (miss ..) / (jag ..) items: no value-level reading here *)
+
+let getitemx (items : Sx.t list) (l : Sx.t) : opres =
+  let rec split pre = (function
+      | [] -> (List.rev pre, None, [])
+      | x :: tl when is_adv_item x -> (List.rev pre, Some x, tl)
+      | x :: tl -> split (x :: pre) tl) in
+  let pre, adv, post = split [] items in
+  let c = content_of_sx l in
+  let t = type_of c in
+  let unsupported = if has_union t then "union" else "" in
+  let mk spec valid unsup = { model = OBad "fuel"; spec = spec; inputs_valid = valid; note = ""; unsupported = unsup } in
+  match adv with
+  | None -> bad "getitemx: no array-like item"
+  | Some _ when List.exists is_adv_item post -> mk (OBad "fuel") (valid_b c) unsupported   (* two array-like items: unspecified *)
+  | Some a ->
+    (match adv_of_sx a with
+     | AdvInvalid -> mk (OBad "fuel") false unsupported
+     | AdvUnion -> mk (OBad "fuel") (valid_b c) "union"
+     | AdvUnspecified -> mk (OBad "fuel") (valid_b c) unsupported
+     | AdvErr -> mk OErr (valid_b c) unsupported
+     | Adv a ->
+       let spec = (match to_list c with
+           | Ok vs -> obs_of_res (getitem_adv_spec (List.map item_of_sx pre) a (List.map item_of_sx post) t vs)
+           | Err _ -> OBad "input-to_list") in
+       mk spec (valid_b c) unsupported)
+
 (* each op: args (without id/op/impl) -> opres *)
 let run_op (op : string) (args : Sx.t list) : opres =
   match op, args with
+  | ("getitem" | "getitemx"), [L items; l] when List.exists is_adv_item items -> getitemx items l
   | "id", [l] ->
     let c = content_of_sx l in
     let o = obs_of_list (to_list c) in
